@@ -15,7 +15,7 @@
 //!   file is the structured case (so `./check <id> --replay` needs no fuzzer).
 
 use crate::engine::*;
-use crate::props::{c03, c09, c10, c12, c13, c20};
+use crate::props::{c03, c09, c10, c12, c13, c16, c20};
 use serde::{Deserialize, Serialize};
 use serde_json::{json, Value};
 use std::collections::{BTreeMap, HashSet};
@@ -90,6 +90,7 @@ pub const TARGETS: &[Target] = &[
     Target { name: "arc", prop: "C13", stage: "fuzz-arc", max_len: 4096 },
     Target { name: "kmer", prop: "C20", stage: "fuzz-kmer", max_len: 512 },
     Target { name: "codec", prop: "C03", stage: "fuzz-codec", max_len: 4096 },
+    Target { name: "fasta", prop: "C16", stage: "fuzz-fasta", max_len: 2048 },
 ];
 
 pub fn target(name: &str) -> Option<&'static Target> {
@@ -132,6 +133,11 @@ pub fn eval(ctx: &Ctx, name: &str, data: &[u8]) -> (Report, Value, u64) {
             let r = guarded(|| c03::check_codec(&c)).unwrap_or_else(|p| Report::fail(format!("panic: {}", p)));
             pack(r, &c)
         }
+        "fasta" => {
+            let c = c16::from_fuzz(data);
+            let r = guarded(|| c16::check_parser(&c)).unwrap_or_else(|p| Report::fail(format!("panic: {}", p)));
+            pack(r, &c)
+        }
         _ => (Report::inconclusive(format!("unknown fuzz target {}", name)), Value::Null, 0),
     }
 }
@@ -144,6 +150,7 @@ pub fn seeds(name: &str) -> Vec<Vec<u8>> {
         "arc" => c13::fuzz_seeds(),
         "kmer" => c20::fuzz_seeds(),
         "codec" => c03::fuzz_seeds(),
+        "fasta" => c16::fuzz_seeds(),
         _ => Vec::new(),
     }
 }
